@@ -183,3 +183,245 @@ def install_models(reg):
                     z3.If(z3.And(atoms(c)[P.place(v, False)], c.visited[P.place(v, False)]), 1 - pv, -1))))])(pos_val))},
             note="a siphon atom p_v means 'v cannot become 1 ... ' (inverted polarity) for trap spaces; direct polarity for fixed points",
         ))
+
+
+# ====================================================================== the answer-set programs (C09), rule level
+def install_programs(reg):
+    """_create_clingo_constraints / _create_clingo_fixed_point_constraints against a rule-level specification: the set of rules
+    added to the clingo Control is EXACTLY the program of DESIGN.md 6.3 (two inclusions), and the enumeration mode matches the
+    problem.  What the stable models of that program are (L4 / L9) is mathematics about the specification, not about the code."""
+    from pyvc import pnmodel as P
+    from pyvc import aspmodel as A
+    G, R = P.PNGraph, A.Rule
+    LNm = LN
+    MemNm, AX_MEMN = T.mem_theory(LNm, "name")
+    r_, t_, b_, p_ = z3.Const("r!s", A.Rule), z3.Const("t!s", P.PNode), z3.Const("b!s", P.PNode), z3.Const("p!s", P.PNode)
+    v_ = z3.Const("v!s", Name)
+    ai = z3.Int("a!s")
+    TRUE, FALSE = z3.BoolVal(True), z3.BoolVal(False)
+
+    def Ens(c):
+        return z3.If(OptSpace.is_none(c.ensure_subspace), EMPTYS, OptSpace.val(c.ensure_subspace))
+
+    def Av(c):
+        return z3.If(OptLS.is_none(c.avoid_subspaces), LS.empty().t, OptLS.val(c.avoid_subspaces))
+
+    def Src(c):
+        return z3.If(OptLN.is_none(c.optimize_source_variables), LNm.empty().t, OptLN.val(c.optimize_source_variables))
+
+    def vpair(v):
+        return A.pair(P.place(v, TRUE), P.place(v, FALSE))
+
+    def avoid_body(sp, one_is_negative):
+        """{ place(v, sp[v] != 1) | v in dom sp }  (trap spaces: inverted polarity)   or   { place(v, sp[v] == 1) | ... } (fixed points)"""
+        pol = (lambda x: x != 1) if one_is_negative else (lambda x: x == 1)
+        return z3.Lambda([p_], z3.And(P.is_place(p_), sp[P.pvar(p_)] >= 0, P.ppos(p_) == pol(sp[P.pvar(p_)])))
+
+    def free_set(c):
+        g = c.petri_net
+        return z3.Lambda([p_], z3.And(G.nodes(g)[p_], A.kind_of(p_) == 0, Ens(c)[P.pvar(p_)] < 0))
+
+    def wf_net(c):
+        g = c.petri_net
+        return z3.ForAll([p_], z3.Implies(G.nodes(g)[p_], z3.And(
+            z3.Or(A.kind_of(p_) == 0, A.kind_of(p_) == 1),
+            z3.Implies(A.kind_of(p_) == 0, z3.And(P.is_place(p_), p_ == P.place(P.pvar(p_), P.ppos(p_)))))))
+
+    # ---- progress descriptors: which part of each stage has been emitted
+    class Prog:
+        def __init__(self, d1, d2, d3, d4, max_done, d5):
+            self.d1, self.d2, self.d3, self.d4, self.max_done, self.d5 = d1, d2, d3, d4, max_done, d5
+
+    def clauses(c, rules, pg):
+        """the rule set, constructor by constructor: rules[r] <=> r is one of the rules of the specification emitted so far"""
+        g, E_, AV = c.petri_net, Ens(c), Av(c)
+        fix, mx, rev = c.problem == 2, c.problem == 1, c.reverse_time
+        r = r_
+        has_free = z3.Exists([p_], free_set(c)[p_])
+        ok_choice = z3.And(P.is_place(R.atom(r)), R.atom(r) == P.place(P.pvar(R.atom(r)), P.ppos(R.atom(r))), pg.d1(P.pvar(R.atom(r))))
+        ok_constraint = z3.Or(
+            z3.Exists([v_], z3.And(pg.d1(v_), R.cbody(r) == vpair(v_))),
+            z3.Exists([ai], z3.And(pg.d3(ai), R.cbody(r) == avoid_body(LS.at(AV)[ai], True))))
+        ok_disj = z3.Or(
+            z3.And(fix, z3.Exists([v_], z3.And(pg.d1(v_), R.dhead(r) == vpair(v_)))),
+            z3.Exists([v_], z3.And(pg.d2(v_), R.dhead(r) == A.single(P.place(v_, E_[v_] != 1)))),
+            z3.And(mx, pg.max_done, has_free, R.dhead(r) == free_set(c)),
+            z3.And(mx, has_free, z3.Exists([v_], z3.And(pg.d5(v_), E_[v_] < 0, R.dhead(r) == vpair(v_)))))
+        ok_imp = z3.Exists([t_], z3.And(pg.d4(t_, R.ibody(r)), A.kind_of(t_) == 1, z3.If(
+            rev,
+            z3.And(R.ihead(r) == A.succs_set(g, t_), A.preds_set(g, t_)[R.ibody(r)], z3.Not(A.succs_set(g, t_)[R.ibody(r)])),
+            z3.And(R.ihead(r) == A.preds_set(g, t_), A.succs_set(g, t_)[R.ibody(r)], z3.Not(A.preds_set(g, t_)[R.ibody(r)])))))
+        return [
+            ("choice_rules", z3.ForAll([r_], z3.Implies(R.is_choice(r), rules[r] == ok_choice))),
+            ("integrity_constraints", z3.ForAll([r_], z3.Implies(R.is_constraint(r), rules[r] == ok_constraint))),
+            ("disjunctive_facts", z3.ForAll([r_], z3.Implies(R.is_disj(r), rules[r] == ok_disj))),
+            # a rule whose body atom also occurs in its head is a tautology (removing or adding it never changes the stable
+            # models): the code skips them as an optimisation, the specification leaves their presence open
+            ("siphon_or_trap_rules", z3.ForAll([r_], z3.Implies(z3.And(R.is_imp(r), z3.Not(R.ihead(r)[R.ibody(r)])), rules[r] == ok_imp))),
+            ("only_tautologies_besides", z3.ForAll([r_], z3.Implies(z3.And(R.is_imp(r), R.ihead(r)[R.ibody(r)], rules[r]), z3.Exists([t_], z3.And(
+                pg.d4(t_, R.ibody(r)), A.kind_of(t_) == 1,
+                z3.If(rev, z3.And(R.ihead(r) == A.succs_set(g, t_), A.preds_set(g, t_)[R.ibody(r)]),
+                      z3.And(R.ihead(r) == A.preds_set(g, t_), A.succs_set(g, t_)[R.ibody(r)]))))))),
+            ("never_false", z3.Not(rules[R.falsum])),
+        ]
+
+    NONE1 = lambda v: FALSE
+    NONE2 = lambda t, b: FALSE
+    ALL1 = lambda c: (lambda v: MemNm(c.variables, v))
+    ALL2 = lambda c: (lambda v: Ens(c)[v] >= 0)
+    ALL3 = lambda c: (lambda a: z3.And(0 <= a, a < LS.len(Av(c))))
+    ALL4 = lambda c: (lambda t, b: G.nodes(c.petri_net)[t])
+    ALL5 = lambda c: (lambda v: MemNm(Src(c), v))
+
+    def vis(c, sort=Name):
+        """ghost visited-set of the current loop (a loop over an empty literal has none: nothing is visited)"""
+        try:
+            return c.visited
+        except AttributeError:
+            return z3.K(sort, FALSE)
+
+    def idx(c):
+        try:
+            return c.i
+        except AttributeError:
+            return z3.IntVal(0)
+
+    def prefix(lst, i, lty=LNm):
+        return lambda v: z3.Exists([ai], z3.And(0 <= ai, ai < i, lty.at(lst)[ai] == v))
+
+    def mode(c, ctl):
+        return ("enumeration_mode", A.Ctl.dommod(ctl) == z3.If(c.problem == 1, 5, 3))
+
+    def free_inv(c, vis):
+        """free_places lists exactly the visited free places"""
+        fp = c.free_places
+        return ("free_places_so_far", z3.And(LP.len(fp) >= 0, z3.ForAll([p_], A.MemP(fp, p_) == z3.And(vis[p_], free_set(c)[p_]))))
+
+    LP = A.LP
+    names = ["choice_rules", "integrity_constraints", "disjunctive_facts", "siphon_or_trap_rules", "only_tautologies_besides", "never_false"]
+
+    def post(c):
+        pg = Prog(ALL1(c), ALL2(c), ALL3(c), ALL4(c), TRUE, ALL5(c))
+        return clauses(c, A.Ctl.rules(c.result), pg) + [mode(c, c.result)]
+
+    def inv1(c):
+        pg = Prog(prefix(c.variables, c.i), NONE1, lambda a: FALSE, NONE2, FALSE, NONE1)
+        return clauses(c, A.Ctl.rules(c.ctl), pg) + [mode(c, c.ctl)]
+
+    def inv2(c):
+        pg = Prog(ALL1(c), lambda v: vis(c)[v], lambda a: FALSE, NONE2, FALSE, NONE1)
+        return clauses(c, A.Ctl.rules(c.ctl), pg) + [mode(c, c.ctl)]
+
+    def inv3(c):
+        pg = Prog(ALL1(c), ALL2(c), lambda a: z3.And(0 <= a, a < idx(c)), NONE2, FALSE, NONE1)
+        return clauses(c, A.Ctl.rules(c.ctl), pg) + [mode(c, c.ctl)]
+
+    def inv4(c):
+        pg = Prog(ALL1(c), ALL2(c), ALL3(c), lambda t, b: c.visited[t], FALSE, NONE1)
+        return clauses(c, A.Ctl.rules(c.ctl), pg) + [mode(c, c.ctl), free_inv(c, c.visited),
+                                                      ("first_free_place", z3.Implies(LP.len(c.free_places) > 0, A.MemP(c.free_places, LP.at(c.free_places)[0])))]
+
+    def inv4in(c):
+        o = c.outer(3)
+        pg = Prog(ALL1(c), ALL2(c), ALL3(c), lambda t, b: z3.Or(o["visited"][t], z3.And(t == c.node, c.visited[b])), FALSE, NONE1)
+        return clauses(c, A.Ctl.rules(c.ctl), pg) + [mode(c, c.ctl), free_inv(c, o["visited"]),
+                                                      ("current_node", z3.And(G.nodes(c.petri_net)[c.node], A.kind_of(c.node) == 1, z3.Not(o["visited"][c.node])))]
+
+    def inv5(c):
+        pg = Prog(ALL1(c), ALL2(c), ALL3(c), ALL4(c), TRUE, prefix(Src(c), idx(c)))
+        return clauses(c, A.Ctl.rules(c.ctl), pg) + [mode(c, c.ctl),
+                                                      ("in_max_branch", z3.And(c.problem == 1, z3.Exists([p_], free_set(c)[p_])))]
+
+    reg.add(Contract(
+        "biobalm.trappist_core._create_clingo_constraints",
+        params=[("variables", LNm), ("petri_net", P.TPNG), ("problem", TInt), ("reverse_time", TBool),
+                ("ensure_subspace", OptSpace), ("avoid_subspaces", OptLS), ("optimize_source_variables", OptLN)],
+        defaults={"problem": 0, "reverse_time": False, "ensure_subspace": None, "avoid_subspaces": None, "optimize_source_variables": None},
+        result_type=A.TCtl, properties=("C09",),
+        requires=[wf_net, lambda c: z3.And(0 <= c.problem, c.problem <= 2),
+                  lambda c: z3.Implies(z3.Not(OptSpace.is_none(c.ensure_subspace)), T.wf_space(OptSpace.val(c.ensure_subspace))),
+                  lambda c: z3.Implies(z3.Not(OptLS.is_none(c.avoid_subspaces)), elems_wf(OptLS.val(c.avoid_subspaces)))],
+        ensures=[(nm, (lambda k: (lambda c: dict(post(c))[k]))(nm)) for nm in names + ["enumeration_mode"]],
+        raises={"Exception": [("never", lambda c: FALSE)]},
+        axioms=P.AX_PLACE + A.AX_MEMP + AX_MEMN,
+        lemmas=[("def.Mem(first element)", lambda c: z3.Implies(LP.len(c.free_places) > 0, A.MemP(c.free_places, LP.at(c.free_places)[0])))],
+        local_types={"free_places": LP, "ctl": A.TCtl}, ann_types={"list[str]": LP}, merge_ifs=True,
+        loops={0: LoopContract("for var_name in variables", inv1),
+               1: LoopContract("for fixed_var in ensure_subspace", inv2),
+               2: LoopContract("for to_avoid in avoid_subspaces", inv3),
+               3: LoopContract("for node, kind in petri_net.nodes(data='kind')", inv4),
+               4: LoopContract("for successor in petri_net.successors(node)", inv4in),
+               5: LoopContract("for predecessor in petri_net.predecessors(node)", inv4in),
+               6: LoopContract("for variable in optimize_source_variables", inv5)},
+        note="rule-level specification; the Petri net is an arbitrary graph whose nodes are places (named place(v, b)) or transitions",
+    ))
+
+    # ------------------------------------------------------------------ _create_clingo_fixed_point_constraints
+    def fp_clauses(c, rules, d1, d4, d2, d3, exact=TRUE):
+        """rules[r] <=> r is a rule of the deadlock program emitted so far (places, transitions, ensured values, avoided spaces)"""
+        g, AV = c.petri_net, Av(c)
+        E_ = Ens(c)
+        r = r_
+        ok_choice = z3.And(P.is_place(R.atom(r)), R.atom(r) == P.place(P.pvar(R.atom(r)), P.ppos(R.atom(r))), d1(P.pvar(R.atom(r))))
+        ok_constraint = z3.Or(
+            z3.Exists([v_], z3.And(d1(v_), R.cbody(r) == vpair(v_))),
+            z3.Exists([t_], z3.And(d4(t_), A.kind_of(t_) == 1, R.cbody(r) == A.preds_set(g, t_))),
+            z3.Exists([ai], z3.And(d3(ai), R.cbody(r) == avoid_body(LS.at(AV)[ai], False))))
+        ok_disj = z3.Or(
+            z3.Exists([v_], z3.And(d1(v_), R.dhead(r) == vpair(v_))),
+            z3.Exists([v_], z3.And(d2(v_), R.dhead(r) == A.single(P.place(v_, E_[v_] != 0)))))
+        return [
+            ("choice_rules", z3.Implies(exact, z3.ForAll([r_], z3.Implies(R.is_choice(r), rules[r] == ok_choice)))),
+            ("integrity_constraints", z3.Implies(exact, z3.ForAll([r_], z3.Implies(R.is_constraint(r), rules[r] == ok_constraint)))),
+            ("disjunctive_facts", z3.Implies(exact, z3.ForAll([r_], z3.Implies(R.is_disj(r), rules[r] == ok_disj)))),
+            ("no_other_rules", z3.Implies(exact, z3.ForAll([r_], z3.Implies(R.is_imp(r), z3.Not(rules[r]))))),
+        ]
+
+    def no_empty_before(c, n):
+        return z3.ForAll([ai], z3.Implies(z3.And(0 <= ai, ai < n), T.card(LS.at(Av(c))[ai]) > 0))
+
+    FNAMES = ["choice_rules", "integrity_constraints", "disjunctive_facts", "no_other_rules"]
+    FALL1 = lambda c: (lambda v: MemNm(c.variables, v))
+    FALL4 = lambda c: (lambda t: G.nodes(c.petri_net)[t])
+    FALL2 = lambda c: (lambda v: Ens(c)[v] >= 0)
+    NONEI = lambda a: FALSE
+
+    def fp_post(c):
+        n = LS.len(Av(c))
+        rules = A.Ctl.rules(c.result)
+        return fp_clauses(c, rules, FALL1(c), FALL4(c), FALL2(c), lambda a: z3.And(0 <= a, a < n), exact=no_empty_before(c, n)) + [
+            ("false_iff_some_avoided_space_is_everything", rules[R.falsum] == z3.Not(no_empty_before(c, n))),
+            ("enumeration_mode", A.Ctl.dommod(c.result) == 3)]
+
+    def fp_inv(stage):
+        def f(c):
+            rules = A.Ctl.rules(c.ctl)
+            d1 = prefix(c.variables, idx(c)) if stage == 0 else FALL1(c)
+            d4 = (lambda t: FALSE) if stage < 1 else ((lambda t: vis(c, P.PNode)[t]) if stage == 1 else FALL4(c))
+            d2 = NONE1 if stage < 2 else ((lambda v: vis(c)[v]) if stage == 2 else FALL2(c))
+            d3 = NONEI if stage < 3 else (lambda a: z3.And(0 <= a, a < idx(c)))
+            extra = [("never_false_so_far", z3.Not(rules[R.falsum])), ("enumeration_mode", A.Ctl.dommod(c.ctl) == 3)]
+            if stage == 3:
+                extra.append(("no_empty_space_so_far", no_empty_before(c, idx(c))))
+            return fp_clauses(c, rules, d1, d4, d2, d3) + extra
+        return f
+
+    reg.add(Contract(
+        "biobalm.trappist_core._create_clingo_fixed_point_constraints",
+        params=[("variables", LNm), ("petri_net", P.TPNG), ("ensure_subspace", OptSpace), ("avoid_subspaces", OptLS)],
+        defaults={"ensure_subspace": None, "avoid_subspaces": None},
+        result_type=A.TCtl, properties=("C09",),
+        requires=[wf_net,
+                  lambda c: z3.Implies(z3.Not(OptSpace.is_none(c.ensure_subspace)), T.wf_space(OptSpace.val(c.ensure_subspace))),
+                  lambda c: z3.Implies(z3.Not(OptLS.is_none(c.avoid_subspaces)), elems_wf(OptLS.val(c.avoid_subspaces)))],
+        ensures=[(nm, (lambda k: (lambda c: dict(fp_post(c))[k]))(nm)) for nm in FNAMES + ["false_iff_some_avoided_space_is_everything", "enumeration_mode"]],
+        raises={"Exception": [("never", lambda c: FALSE)]},
+        axioms=P.AX_PLACE + A.AX_MEMP + AX_MEMN + [T.AX_CARD, T.AX_CARD0],
+        local_types={"ctl": A.TCtl}, merge_ifs=True,
+        loops={0: LoopContract("for node in variables", fp_inv(0)),
+               1: LoopContract("for node, kind in petri_net.nodes(data='kind')", fp_inv(1)),
+               2: LoopContract("for fixed_var, value in ensure_subspace.items()", fp_inv(2)),
+               3: LoopContract("for to_avoid in avoid_subspaces", fp_inv(3))},
+        note="rule-level specification of the deadlock (fixed point) program; when some avoided space is the whole state space the "
+             "program contains #false and the remaining rules are irrelevant",
+    ))
